@@ -5,6 +5,7 @@ from ..core import Cmd, U, Problem, M64, PANIC
 from .. import runner
 from .c02 import digest
 
+THOROUGH_SEEDS = 1   # the thorough tier repeats its staged workload over this many derived seeds
 RULE = ('the hooked work counter (sum of row lengths passed to the multiply-accumulate row routine = elementary digit '
         'multiplications) is read before/after one &a * &b on fixed dense operands (no zero digits; seed-independent), so the '
         'count is a deterministic function of the code: balanced n in {256,...,16384}: W(2n)/W(n) <= 3.1 for every doubling, '
